@@ -687,13 +687,11 @@ func (d *director) runEpisodes() {
 		}
 		if outcome == "served-without-observable-outcome" || outcome == "unserved" {
 			if blind++; blind >= 3 {
-				// three episodes in a row without any reaction of the node: it is not syncing any more;
+				// three episodes without any reaction of the node: it is not syncing any more;
 				// the final phase decides what that is
 				d.run.Count("episode_lists_abandoned", 1)
 				return
 			}
-		} else {
-			blind = 0
 		}
 		// everybody leaves and comes back, one at a time (somebody claiming the full height always
 		// stays): the node forgets every block and every open request of the episode, whoever was
